@@ -19,7 +19,8 @@ def to_event(c, o):
             "items": ob.get("items", []), "len_ok": bool(ob.get("len_ok")), "len": ob.get("len", 0),
             "iterable": bool(ob.get("iterable")), "isarray": bool(ob.get("isarray")), "ismap": bool(ob.get("ismap")),
             "contains_all": bool(ob.get("contains_all")), "contains_absent": bool(ob.get("contains_absent")),
-            "contains_err": bool(ob.get("contains_err")), "tpl": ob.get("tpl", "")}
+            "contains_err": bool(ob.get("contains_err")), "tpl": ob.get("tpl", ""),
+            "twig": ob.get("twig", ""), "twiglen": ob.get("twiglen", 0), "twigin": bool(ob.get("twigin", True))}
 
 
 def keyclass(c):
